@@ -244,14 +244,14 @@ def run(tier, seed, replay=None):
             cases = [g.Case([replay["sql"]], "replay")]
     else:
         cases += g.systematic(rng)
-        n_rand, n_soup = (1500, 700) if tier == "quick" else (140000, 60000)
+        n_rand, n_soup = (1500, 700) if tier == "quick" else (100000, 40000)
         cases += [g.rand_case(rng) for _ in range(n_rand)]
         cases += [g.soup_case(rng) for _ in range(n_soup)]
         for fb in FLAG_SETS_BEFORE:
             for fa in FLAG_SETS_AFTER:
                 for a in CLI_ARGS:
                     cli_cases.append(["sqlite3"] + fb + ["main.db"] + a + fa)
-        n_cli = 300 if tier == "quick" else 10000
+        n_cli = 300 if tier == "quick" else 8000
         for _ in range(n_cli):
             c = g.rand_case(rng) if rng.random() < 0.7 else g.soup_case(rng)
             fb = rng.choice(FLAG_SETS_BEFORE) if rng.random() < 0.5 else []
